@@ -73,7 +73,6 @@ Fixpoint play (c : cfg) (sigma : strategy_t) (n : nat) (s : st) (hist : list (li
 Definition init_outs (c : cfg) : list outev := routs (reset c (fresh c false)).
 Definition game (c : cfg) (sigma : strategy_t) (n : nat) := play c sigma n (start c) [init_outs c].
 
-Definition is_abort (o : outev) : bool := match o with Reconnect _ _ => true | Die => true | _ => false end.
 Definition finished (r : st * list (list outev)) : Prop :=
   fsm (fst r) = CONNECTED \/ fsm (fst r) = CONNECTED_SASL \/ existsb (existsb is_abort) (snd r) = true.
 
